@@ -54,7 +54,7 @@ class Proof:
         self.bounded = None; self.complete_unwind = None; self.defines = []; self.timeout = 600
         self.tier = 'quick'; self.canary = True; self.harness = None; self.extra = ''; self.origin = None
         self.replay = None; self.note = ''; self.nondet_static = True; self.object_bits = None
-        self.expect_unreachable = False; self.includes = []; self.allow_wrap = []; self.no_loop_contracts = False; self.split = None; self.fallback = None
+        self.expect_unreachable = False; self.includes = []; self.allow_wrap = []; self.no_loop_contracts = False; self.split = None; self.fallback = None; self.thorough = {}
 
 class Spec:
     def __init__(self):
@@ -144,6 +144,8 @@ class Spec:
                         elif k == '@allow-wrap': p.allow_wrap += v
                         elif k == '@no-loop-contracts': p.no_loop_contracts = True
                         elif k == '@fallback': p.fallback = v[0]
+                        elif k == '@thorough':     # @thorough define X=6 | unwindset a.0:9,b.0:9 | timeout 900 | bounded <text>: deeper variant of the SAME proof in the thorough tier
+                            p.thorough[v[0]] = ' '.join(v[1:])
                         elif k == '@split-backend': p.split = (v[0].split('=')[0], v[0].split('=')[1])
                         elif k == '@replay': p.replay = v
                         elif k == '@include': p.includes += v
